@@ -14,7 +14,8 @@
 //!  (ii) hand-verified golden paths must be present in the extracted graph;
 //!  (iii) anything the walker does not understand (unknown expression kind,
 //!       macro body with an acquisition it could not parse, conflicting lock
-//!       classification, a lock name outside the reviewed list).
+//!       classification, a lock name outside the reviewed list, a guard that escapes its function,
+//!       `.read()/.write()/.lock()` not awaited in place, try_* / blocking_* / *_owned lock methods).
 
 mod golden;
 mod index;
@@ -90,7 +91,10 @@ fn main() {
     let callee_id = |f: usize| -> usize { id_of_name[idx.fns[f].name.as_str()] };
 
     // ---- cross-check (i): acquisition counts per file ----
-    let text = scan::text_counts(repo, CRATES);
+    let (text, unsupported_forms) = scan::text_counts(repo, CRATES);
+    for u in unsupported_forms {
+        errors.push(format!("unsupported acquisition form: {}", u));
+    }
     let mut ast: BTreeMap<String, usize> = idx.files.iter().map(|f| (f.clone(), 0)).collect();
     for o in &outs {
         *ast.entry(o.file.clone()).or_default() += o.events.iter().filter(|e| matches!(e, Ev::Acq { .. })).count();
